@@ -228,9 +228,35 @@ def renormalisation(rep: Report, prog: Program, resolver: Resolver, tier: str) -
                   "to {One: 1} when nothing is left", simp.where(o.node))
 
 
+def rekeying(rep: Report, prog: Program) -> None:
+    """R02.9: when Dimension.define appends a fundamental dimension, *every* interned
+    dimension must get the longer exponent vector and its new key - otherwise dimensions
+    interned earlier keep short keys and equal expressions intern twice."""
+    fi = prog.func("Dimension.define")
+    loops = [n for n in ast.walk(fi.node) if isinstance(n, ast.For)
+             and any(isinstance(x, (ast.Delete, ast.Assign, ast.AugAssign)) and "_known" in ast.unparse(x) for x in ast.walk(n))]
+    if not loops:
+        rep.fail("R02.9", "Dimension.define:rekey", "Dimension.define no longer re-keys the interned dimensions when the exponent "
+                 "vector grows", fi.where())
+        return
+    for lp in loops:
+        it = ast.unparse(lp.iter).replace(" ", "")
+        over_all = "_known" in it
+        body = ast.unparse(lp)
+        grows = "exponents" in body and ("+=(0,)" in body.replace(" ", "") or "+(0,)" in body.replace(" ", ""))
+        reinserts = any(isinstance(x, ast.Assign) and any(isinstance(t, ast.Subscript) and ast.unparse(t.value).endswith("._known") for t in x.targets)
+                        for x in ast.walk(lp))
+        rep.check("R02.9", "Dimension.define:rekey", over_all and grows and reinserts,
+                  f"the re-keying loop ranges over `{ast.unparse(lp.iter)}`" + ("" if over_all else ", not over every interned dimension")
+                  + ("" if grows else "; it does not extend the exponent vectors") + ("" if reinserts else "; it does not re-insert under the new key")
+                  + ": dimensions interned before a later Dimension.define keep stale keys and equal expressions intern twice",
+                  fi.where(lp))
+
+
 def run(rep: Report) -> None:
     prog = Program()
     resolver = Resolver(prog)
+    rep.rule("R02.9", "Dimension.define re-keys every interned dimension when the exponent vector grows", floor=1)
     rep.rule("R02.1", "intern keys are canonical: Unit key order-normalised and built from prefix+factors; Dimension "
              "key = exponents; Prefix key = (base, exponent) after identity canonicalisation", floor=5)
     rep.rule("R02.2", "intern protocol: every return of the three __new__ is the interned object, a canonical "
@@ -244,6 +270,7 @@ def run(rep: Report) -> None:
     rep.rule("R02.8", "Prefix operators: log-value of the result = sum/difference/multiple of the operands' "
              "log-values in every arm (same base, identity, cross-base change of base)", floor=10)
     key_canonicity(rep, prog)
+    rekeying(rep, prog)
     intern_protocol(rep, prog)
     check_group_ops(rep, "R02.5", prog, resolver, DIM_OPS, "unit", ())
     check_group_ops(rep, "R02.3", prog, resolver, UNIT_OPS, "unit", ("dimension", "prefix", "unit"))
